@@ -30,6 +30,9 @@ type c20Case struct {
 	Code2         int    `json:"code2,omitempty"` // code of the last rejected recipient when several are rejected
 	TextKind      string `json:"text_kind"`       // esc none esc-elsewhere multiline esc-midline
 	Via           string `json:"via"`
+	// Retry: after the judged call the whole batch is sent again by a new call to a server that accepts everything:
+	// no message of that batch is affected by any negative reply, so none may carry an error
+	Retry bool `json:"retry,omitempty"`
 }
 
 var c20TextKinds = []string{"esc", "none", "esc-elsewhere", "multiline", "esc-midline", "esc-longer-dotted", "esc-with-suffix", "esc-only"}
@@ -255,6 +258,24 @@ func runC20Case(r *ev.Run, c c20Case) {
 	r.Seen("codes", fmt.Sprint(finalCode))
 	r.Seen("positions", c.Pos)
 	r.Eval(fmt.Sprintf("%+v", c), true)
+	if c.Retry {
+		sr2 := runSend(func(int) *refsmtp.Config { return &refsmtp.Config{AllowUTF8: true} }, nil, []mail.Option{mail.WithTLSPolicy(mail.NoTLS)}, msgs, c.Via, false)
+		if sr2.Panic != nil || sr2.Hung || sr2.DialErr != nil {
+			r.Inconclusive(fmt.Sprintf("C20 retry did not complete: hung=%t panic=%v dial=%v", sr2.Hung, sr2.Panic, sr2.DialErr))
+			return
+		}
+		r.Count("retries_run", 1)
+		if sr2.SendErr != nil {
+			viol("retry:returned-error:"+c.Pos, fmt.Sprintf("the batch was sent again to a server that accepted every command, the call returned %v", sr2.SendErr), nil)
+		}
+		for i, m := range msgs {
+			if m.HasSendError() {
+				viol("retry:unaffected-message-has-error:"+c.Pos, fmt.Sprintf("message %d was sent again and accepted (no negative reply in that call, IsDelivered=%t) but still carries the error of the earlier call: %v", i, m.IsDelivered(), m.SendError()), nil)
+			} else {
+				r.Count("retried_messages_clean", 1)
+			}
+		}
+	}
 }
 
 func runC20(r *ev.Run, rep *ev.ReplayDoc) ev.Summary {
@@ -292,6 +313,7 @@ func runC20(r *ev.Run, rep *ev.ReplayDoc) ev.Summary {
 							c.Code2 = 400 + (code+137)%200
 						}
 					}
+					c.Retry = n%5 == 0
 					cases = append(cases, c)
 				}
 			}
@@ -314,6 +336,7 @@ func runC20(r *ev.Run, rep *ev.ReplayDoc) ev.Summary {
 							} else if n%3 == 0 {
 								c.Code2 = 400 + (code+61)%200
 							}
+							c.Retry = n%7 == 0
 							cases = append(cases, c)
 						}
 					}
